@@ -214,6 +214,8 @@ def gen_case(draw):
             # second level: wrap the shape again
             w = ir.width(lhs)
             lhs = draw(st.sampled_from([("bvadd", lhs, _c(draw(st.integers(0, (1 << w) - 1)), w)), ("zext", 2, lhs), ("bvand", lhs, _c(draw(st.integers(0, (1 << w) - 1)), w)),
+                                        ("bvshl", ("zext", w, lhs), _c(draw(st.integers(1, w)), 2 * w)) if 2 * w <= 16 else ("zext", 1, lhs),
+                                        ("bvshl", lhs, _c(draw(st.integers(1, max(w - 1, 1))), w)), ("bvlshr", lhs, _c(draw(st.integers(1, max(w - 1, 1))), w)),
                                         ("extract", max(w - 2, 0), 0, lhs) if w > 1 else lhs, ("bvsub", _c(draw(st.integers(0, (1 << w) - 1)), w), lhs)]))
         w = ir.width(lhs)
         cmp_ = draw(st.sampled_from(CMPS))
